@@ -9,7 +9,7 @@ from hypothesis import strategies as st
 from .. import cli
 from .. import model as M
 from .. import strategies as S
-from ..core import Property, Violation
+from ..core import Property, Violation, HarnessError
 from ..run import R, main_inprocess
 
 PROP = Property(
@@ -184,7 +184,7 @@ def e2e_pel(draw, i):
         secs.append(M.default_src(ascii=M.pad_text(ascii_[:32], 32, b' '),
                                   words=[draw(S.uint(32)) for _ in range(8)]))
     for _ in range(draw(st.integers(0, 3))):
-        kind = draw(st.sampled_from(['text', 'json', 'mt', 'eh', 'raw', 'bad-json', 'long-line']))
+        kind = draw(st.sampled_from(['text', 'json', 'mt', 'eh', 'raw', 'bad-json', 'long-line', 'plugin']))
         if kind == 'text':
             lines = draw(st.lists(nasty_line, min_size=1, max_size=4))
             lines = [('x' + l + 'x') for l in lines]
@@ -205,6 +205,17 @@ def e2e_pel(draw, i):
             else:
                 secs.append({'k': 'UD', 'ver': 1, 'sub': 1, 'comp': 0x2000,
                              'data': json.dumps({'long': 'L' + 'z' * min(n, 60000) + 'R'}).encode()})
+        elif kind == 'plugin':
+            # sections served by the shipped plug-ins (hardware diagnostics, I/O drawer), mostly with payloads the
+            # plug-in cannot digest: the decoder then produces an error note + hex dump, which must be printed
+            # like any other document
+            if draw(st.booleans()):
+                secs.append({'k': 'UD', 'ver': draw(st.sampled_from([1, 2])), 'sub': draw(st.integers(1, 5)),
+                             'comp': 0xE500, 'data': draw(st.binary(min_size=1, max_size=12))})
+            else:
+                secs.append({'k': 'ED', 'ver': draw(st.sampled_from([1, 2, 9])), 'sub': draw(st.sampled_from([72, 73, 84, 1])),
+                             'comp': 0x2C00, 'creator': ord('M'), 'r1': 0, 'r2': 0,
+                             'data': draw(st.binary(min_size=1, max_size=40))})
         elif kind == 'bad-json':
             # JSON-format user data that does not parse (trailing comma, cut off, empty, not UTF-8): it is shown
             # as a hex dump, and whatever is printed must still be the decoded document
@@ -257,89 +268,77 @@ def end_to_end(case, note):
         if case.get('junk_between') and len(case['pels']) >= 2:
             with open(os.path.join(d, 'pel00_junk'), 'wb') as f:
                 f.write(b'not a PEL')
-        recorded = []
-        orig = R.peltool.prettyPrint
-
-        def rec(text, *a, **kw):
-            out = orig(text, *a, **kw)
-            recorded.append((text, out))
-            return out
+        # Oracle without any assumption on HOW the tool aligns: the same command is run twice, once as it is and
+        # once with the alignment step switched off (prettyPrint replaced by the identity).  The un-aligned text is
+        # what json.dumps made of the decoded document(s); the printed text must parse to the same value and differ
+        # from it only by blanks after the colon of a leading key.
+        def identity(text, *a, **kw):
+            return text
+        hook = hasattr(R.peltool, 'prettyPrint')
+        if not hook:
+            note.label('no-alignment-hook')
         mode = case['mode']
+        pairs = []          # (un-aligned text, printed text)
         if mode == 'parsePEL':
             from ..run import decode
-            R.peltool.prettyPrint = rec
-            try:
-                o = decode(M.encode(case['pels'][0]))
-            finally:
-                R.peltool.prettyPrint = orig
+            o = decode(M.encode(case['pels'][0]))
             if o.exc is not None or not o.text:
                 raise Violation('C06.decode', 'well-formed PEL was not decoded: %s' % o.describe())
-            if len(recorded) == 1:
-                check_text(recorded[0][0], o.text, 'parsePEL')
-            else:
-                note.label('no-recorder')
+            plain = o.text
+            if hook:
+                orig = R.peltool.prettyPrint
+                R.peltool.prettyPrint = identity
                 try:
-                    json.loads(o.text)
-                except ValueError as e:
-                    raise Violation('C06.parse', 'parsePEL text is not valid JSON: %s' % e, sig='C06.parse')
+                    plain = decode(M.encode(case['pels'][0])).text
+                finally:
+                    R.peltool.prettyPrint = orig
+            pairs.append((plain, o.text))
             argv = None
         else:
-            argv = {'-f': ['-f', names[0]], '-a': ['-p', d, '-a'], '-l': ['-p', d, '-l'],
-                    '--plid': ['-p', d, '--plid', '50000001'], '--src': ['-p', d, '--src', 'BD'],
-                    '-j': ['-p', d, '-j', '-o', outdir]}[mode]
-            status, out, err = main_inprocess(argv, {'prettyPrint': rec})
-            if status != 0:
-                raise Violation('C06.cli', 'peltool %s exited with %s: %s' % (mode, status, err[:300]))
-            if not recorded:
-                note.label('no-recorder')
-            if mode == '-j':
-                files = sorted(os.listdir(outdir))
-                texts = []
-                for fn in files:
-                    with open(os.path.join(outdir, fn)) as f:
-                        t = f.read()
-                    if t.startswith('{"stale"') and t.rstrip().endswith('"}'):
-                        continue        # left over from the earlier run for a PEL that is not displayed now
-                    texts.append(t)
-                befores = sorted(b for b, _ in recorded)
-                if recorded and len(texts) != len(recorded):
-                    raise Violation('C06.json-files', '%d files written for %d decoded documents' % (len(texts), len(recorded)))
-                for t in texts:
-                    try:
-                        got = json.loads(t)
-                    except ValueError as e:
-                        raise Violation('C06.parse', '-j file is not valid JSON: %s' % e, sig='C06.parse')
-                    if recorded and not any(got == json.loads(b) for b in befores):
-                        raise Violation('C06.equal', '-j file parses to a document that was not decoded',
-                                        sig='C06.equal')
-                for b, a in recorded:
-                    check_text(b, a, '-j')
-            else:
-                try:
-                    got = json.loads(out)
-                except ValueError as e:
-                    raise Violation('C06.parse', 'peltool %s printed invalid JSON (%s): %r' % (mode, e, out[:300]),
-                                    sig='C06.parse')
-                if recorded:
-                    if mode == '-f':
-                        want = json.loads(recorded[0][0])
-                    elif mode == '-a':
-                        want = [json.loads(b) for b, _ in recorded]
-                    else:
-                        want = json.loads(recorded[-1][0])
-                    if got != want:
-                        raise Violation('C06.equal', 'peltool %s: printed text parses to a different document: %s'
-                                        % (mode, _diff(got, want)), sig='C06.equal')
-                    for b, a in recorded:
-                        check_text(b, a, mode)
-                if case['real'] and mode in ('-f', '-a', '-l'):
-                    r = cli.real(argv)
-                    if r.status != 0 or r.out != out:
-                        raise Violation('C06.cli', 'a real interpreter run of peltool %s prints something else than '
-                                        'the in-process run: %s' % (mode, r.brief()), sig='C06.real')
-                    note.label('real-subprocess')
+            outdir0 = tempfile.mkdtemp(prefix='c06p')
+            try:
+                def argv_for(od):
+                    return {'-f': ['-f', names[0]], '-a': ['-p', d, '-a'], '-l': ['-p', d, '-l'],
+                            '--plid': ['-p', d, '--plid', '50000001'], '--src': ['-p', d, '--src', 'BD'],
+                            '-j': ['-p', d, '-j', '-o', od]}[mode]
+                argv = argv_for(outdir)
+                status, out, err = main_inprocess(argv)
+                if status != 0:
+                    raise Violation('C06.cli', 'peltool %s exited with %s: %s' % (mode, status, err[:300]))
+                status0, out0, err0 = main_inprocess(argv_for(outdir0), {'prettyPrint': identity} if hook else None)
+                if status0 != 0:
+                    raise HarnessError('the un-aligned reference run of peltool %s failed: %s' % (mode, err0[:300]))
+                if mode == '-j':
+                    plain_files = {}
+                    for fn in sorted(os.listdir(outdir0)):
+                        with open(os.path.join(outdir0, fn)) as f:
+                            plain_files[fn] = f.read()
+                    written = {}
+                    for fn in sorted(os.listdir(outdir)):
+                        with open(os.path.join(outdir, fn)) as f:
+                            t = f.read()
+                        if fn not in plain_files and t.startswith('{"stale"') and t.rstrip().endswith('"}'):
+                            continue    # left over from the earlier run for a PEL that is not displayed now
+                        written[fn] = t
+                    if sorted(written) != sorted(plain_files):
+                        raise Violation('C06.json-files', 'files written %r, documents decoded for %r'
+                                        % (sorted(written), sorted(plain_files)))
+                    for fn in written:
+                        pairs.append((plain_files[fn], written[fn]))
+                else:
+                    pairs.append((out0, out))
+            finally:
+                shutil.rmtree(outdir0, ignore_errors=True)
+        for plain, printed in pairs:
+            check_text(plain, printed, mode if mode != 'parsePEL' else 'parsePEL')
+        if argv is not None and case['real'] and mode in ('-f', '-a', '-l'):
+            r = cli.real(argv)
+            if r.status != 0 or r.out != pairs[0][1]:
+                raise Violation('C06.cli', 'a real interpreter run of peltool %s prints something else than '
+                                'the in-process run: %s' % (mode, r.brief()), sig='C06.real')
+            note.label('real-subprocess')
         note.label('mode=' + mode)
-        docs = [json.loads(b) for b, _ in recorded]
+        docs = [json.loads(b) for b, _ in pairs]
         special = any('":' in s or '{' in s for doc in docs for s in strings_of(doc))
         note.nontrivial = special or any(depth(x) >= 3 for x in docs)
     finally:
